@@ -64,6 +64,26 @@ pub fn gen_tetris(t: &mut Tape) -> raw::LayoutResult<(tetris::library::Library, 
     let ncells = t.range(1, 4);
     let mut cells: Vec<(Ptr<tetris::cell::Cell>, i64, i64, usize)> = Vec::new();
     let mut list: PtrList<tetris::cell::Cell> = PtrList::new();
+    // raw-defined cells wrapped as gridded cells (their raw library registered with the gridded one, or not)
+    if t.chance(1, 3) {
+        let rawlayers = stk.rawlayers.clone();
+        let mut rl = raw::Library::new(format!("rawdep{}", t.draw(4)), raw::Units::Nano);
+        if let Some(l) = rawlayers {
+            rl.layers = l;
+        }
+        let mut rcells = Vec::new();
+        for k in 0..t.range(1, 4) {
+            let c = raw::Cell::from(raw::Layout { name: format!("rawcell{}", k), ..Default::default() });
+            rcells.push(rl.cells.insert(c));
+        }
+        let register = t.chance(1, 2);
+        let libptr = if register { lib.add_rawlib(rl) } else { Ptr::new(rl) };
+        for (k, rc) in rcells.into_iter().enumerate() {
+            let (x, y) = (4 + k as isize, 1);
+            let w = tetris::cell::RawLayoutPtr { outline: Outline::rect(x, y)?, metals: 1, lib: libptr.clone(), cell: rc };
+            cells.push((list.insert(w), x as i64, y as i64, 1));
+        }
+    }
     for ci in 0..ncells {
         let big = t.chance(1, 40);
         let x = if big { 800 + t.draw(400) as isize } else { (10 + t.draw(120) as isize) * (ci as isize + 1) };
